@@ -5,7 +5,7 @@
 From PV Require Import Base DataModel.
 Open Scope N_scope.
 
-Definition str := list byte.
+Notation str := (list N) (only parsing).
 
 Inductive prim :=
 | PBool | PI8 | PU8 | PI16 | PI32 | PI64 | PI128 | PU16 | PU32 | PU64 | PU128 | PUsize | PIsize
